@@ -16,8 +16,11 @@ spec          {"ep": name, "a": [encoded argument,…]}     (+ "m": 1 - afterwar
 result/call   [canonical result, [indices of arguments whose buffers changed], note]
               a "seq" request with "hold": true also re-examines every returned object after the last call ("held_changed")
 
-Environment C19_AMBIENT=1|2: time / datetime / random / secrets / uuid / os.urandom are replaced by two different
-deterministic settings *before* the library is imported.
+Environment C19_AMBIENT=k (see AMBIENT): time / datetime / random / secrets / uuid / os.urandom are replaced by a
+deterministic setting *before* the library is imported - wall clocks in different centuries / years / months (1970, 1999-12-31
+23:59:59, 2001, a leap day, 2026-12-31 23:59:59, 2030, 2100-02-28, 2101), so that a value the library derives from the clock
+when it is IMPORTED (a class attribute, a default argument, a module constant) differs between the settings just like one it
+derives while parsing.  k = 20: no clock change, root logger at DEBUG with a collecting handler.
 """
 import hashlib
 import json
@@ -28,48 +31,112 @@ import sys
 
 # ------------------------------------------------------------------------------------------------
 # ambient patching (must run before the library is imported)
+# k -> (what the clock shows when the interpreter starts (UTC), seconds per reading of the clock)
+AMBIENT = {
+    1: ((2001, 9, 9, 1, 46, 40), 7),
+    2: ((2030, 3, 17, 17, 46, 40), 13),
+    3: ((1999, 12, 31, 23, 59, 59), 0.01),  # last second of a year, a decade, a century: the hundredth reading is in 2000
+    4: ((2101, 6, 15, 12, 0, 0), 11),       # another century
+    5: ((2024, 2, 29, 23, 59, 50), 0.05),   # a leap day, March after two hundred readings
+    6: ((2026, 12, 31, 23, 59, 59), 3600),  # Dec 31 23:59:59
+    7: ((1970, 1, 1, 0, 0, 1), 17),         # a real-time clock that was never set
+    8: ((2100, 2, 28, 23, 59, 59), 0.02),   # 2100 is not a leap year: the next day is March 1st
+}
+AMBIENT_LOGGING = 20
+
+
+def ambient_description(k):
+    if k == AMBIENT_LOGGING:
+        return "root logger at DEBUG with a collecting handler (no clock change)"
+    (y, mo, d, h, mi, s), step = AMBIENT[k]
+    return f"clock starts at {y:04d}-{mo:02d}-{d:02d} {h:02d}:{mi:02d}:{s:02d} UTC (+{step}s per reading), random / secrets / uuid / os.urandom setting #{k}"
+
+
+def patch_logging():
+    import logging
+
+    class Collect(logging.Handler):
+        def __init__(self):
+            super().__init__(logging.DEBUG)
+            self.n = 0
+
+        def emit(self, record):
+            self.n += 1
+            record.getMessage()  # the arguments are formatted, as a real handler would
+
+    root = logging.getLogger()
+    root.handlers[:] = [Collect()]
+    root.setLevel(logging.DEBUG)
+
+
 def patch_ambient(k: int):
+    import calendar
     import datetime as _dt
     import random as _random
     import secrets as _secrets
     import time as _time
     import uuid as _uuid
 
-    base = 1_000_000_000 if k == 1 else 1_900_000_000
+    if k == AMBIENT_LOGGING:
+        return patch_logging()
+    start, step = AMBIENT[k]
+    base = calendar.timegm(start + (0, 0, 0))
     cnt = [0]
 
-    def tick():
+    def tickf():
         cnt[0] += 1
-        return base + cnt[0] * (7 if k == 1 else 13)
+        return base + (cnt[0] - 1) * step
 
-    _time.time = lambda: float(tick())
+    def tick():
+        return int(tickf())
+
+    real_gmtime, real_localtime, real_strftime, real_ctime, real_asctime = _time.gmtime, _time.localtime, _time.strftime, _time.ctime, _time.asctime
+    _time.time = lambda: float(tickf())
     _time.time_ns = lambda: tick() * 10**9
     _time.monotonic = lambda: float(tick())
+    _time.monotonic_ns = lambda: tick() * 10**9
     _time.perf_counter = lambda: float(tick())
+    _time.perf_counter_ns = lambda: tick() * 10**9
+    _time.process_time = lambda: float(tick())
+    _time.process_time_ns = lambda: tick() * 10**9
+    _time.thread_time = lambda: float(tick())
+    if hasattr(_time, "clock_gettime"):
+        _time.clock_gettime = lambda clk: float(tick())
+        _time.clock_gettime_ns = lambda clk: tick() * 10**9
+    # without an argument these read the clock
+    _time.gmtime = lambda secs=None: real_gmtime(tick() if secs is None else secs)
+    _time.localtime = lambda secs=None: real_localtime(tick() if secs is None else secs)
+    _time.strftime = lambda fmt, t=None: real_strftime(fmt, real_localtime(tick()) if t is None else t)
+    _time.ctime = lambda secs=None: real_ctime(tick() if secs is None else secs)
+    _time.asctime = lambda t=None: real_asctime(real_localtime(tick()) if t is None else t)
 
     real_dt, real_date = _dt.datetime, _dt.date
 
     class FakeDate(real_date):
         @classmethod
         def today(cls):
-            return cls(2001, 2, 3) if k == 1 else cls(2031, 11, 29)
+            t = real_gmtime(tick())
+            return cls(t.tm_year, t.tm_mon, t.tm_mday)
 
     class FakeDateTime(real_dt):
         @classmethod
         def now(cls, tz=None):
-            return cls.fromtimestamp(tick(), tz)
+            t = real_gmtime(tick())
+            v = cls(t.tm_year, t.tm_mon, t.tm_mday, t.tm_hour, t.tm_min, t.tm_sec)
+            return v if tz is None else v.replace(tzinfo=_dt.timezone.utc).astimezone(tz)
 
         @classmethod
         def utcnow(cls):
-            return cls.utcfromtimestamp(tick())
+            t = real_gmtime(tick())
+            return cls(t.tm_year, t.tm_mon, t.tm_mday, t.tm_hour, t.tm_min, t.tm_sec)
 
         @classmethod
         def today(cls):
-            return cls.fromtimestamp(tick())
+            return cls.now()
 
     _dt.date = FakeDate
     _dt.datetime = FakeDateTime
-    _random.seed(12345 if k == 1 else 98765)
+    _random.seed(12345 if k == 1 else 98765 + k)
     _secrets.token_bytes = lambda n=32: bytes([(17 * k + i) & 0xFF for i in range(n)])
     _secrets.token_hex = lambda n=32: _secrets.token_bytes(n).hex()
     _secrets.randbits = lambda n: (0x5A5A5A5A5A5A5A5A * k) & ((1 << n) - 1)
@@ -122,7 +189,66 @@ def dec(e):
         return numpy.int64(e[1])
     if t == "h":
         return held(e[1], e[2])
+    # ---- other FORMS of the same data that the callee's own conversions may accept (c19.arg_forms)
+    if t == "k":
+        return kept(e[1], e[2])
+    if t == "r":
+        # the very object an earlier call of this history returned (["r", index of the call, None | element index, value it should have])
+        o = _RESULTS[e[1]]
+        return o if e[2] is None else o[e[2]]
+    if t == "t":
+        return tuple(dec(x) for x in e[1])
+    if t == "lb":
+        return [bool(x) for x in e[1]]
+    if t in ("bz", "blz"):
+        # a bitarray that does not fill its last octet, the pad bits of its buffer zeroed (what the buffer protocol shows
+        # of them is otherwise unspecified): built on whole octets, then shortened
+        s = e[1]
+        b = bitarray(s + "0" * (-len(s) % 8), endian="little" if t == "blz" else "big")
+        del b[len(s):]
+        return b
+    if t == "npro":
+        import numpy
+
+        a = numpy.array(e[2], dtype=e[1])
+        a.setflags(write=False)
+        return a
+    if t == "npfb":
+        import numpy
+
+        return numpy.frombuffer(bytes.fromhex(e[1]), dtype=numpy.uint8)  # read-only: the buffer is a bytes object
+    if t == "npfa":
+        import numpy
+
+        return numpy.frombuffer(bytearray.fromhex(e[1]), dtype=numpy.uint8)  # writable view of a bytearray
+    if t == "npv":
+        import numpy
+
+        return numpy.array([y for x in e[2] for y in (x, 1 - x if x in (0, 1) else x)], dtype=e[1])[::2]  # non-contiguous view
+    if t == "arr":
+        import array
+
+        return array.array(e[1], e[2])
+    if t == "bsub":
+        return _BytesSub(bytes.fromhex(e[1]))
     raise ValueError(f"bad encoded argument {e!r}")
+
+
+class _BytesSub(bytes):
+    """a bytes subclass (what e.g. a socket wrapper or a dissector hands over)"""
+
+
+# objects the CALLER keeps between calls of one history and hands over again AS THEY ARE (["k", slot, enc]): created on the
+# first use from `enc`, never rewritten by the caller - if a callee alters one, the next call gets the altered object
+_KEPT = {}
+# what the calls of the running history returned, in order (for ["r", i, …] arguments)
+_RESULTS = []
+
+
+def kept(slot, enc):
+    if slot not in _KEPT:
+        _KEPT[slot] = dec(enc)
+    return _KEPT[slot]
 
 
 # buffers the CALLER keeps and re-uses between calls of one history: ["h", slot, enc] hands the callee the very same
@@ -259,6 +385,11 @@ def canon(o, depth=0, path=None):
             continue
         fields.append(f"{k}={canon(v, depth + 1, path)}")
     return tn + "{" + ",".join(fields) + "}"
+
+
+def is_raw_buffer(x):
+    """a bit / byte / number buffer itself (not an object or container that holds one)"""
+    return isinstance(x, (bytearray, memoryview)) or type(x).__name__ in ("bitarray", "ndarray", "array")
 
 
 def squash(s: str, limit=400) -> str:
@@ -546,6 +677,17 @@ def impl():
     E["util.numpy_array_to_int"] = lambda a: bb.numpy_array_to_int(a)
     E["util.bitarray_to_numpy_array"] = lambda bits: bb.bitarray_to_numpy_array(bits)
     E["util.half_byte_to_bytes"] = lambda h, n: bb.half_byte_to_bytes(h, n)
+
+    def bytes_bits_bytes(d, le):
+        bits = bb.bytes_to_bits(d, "little" if le else "big")
+        return [bits, bb.bits_to_bytes(bits), bb.byteswap_bytes(bb.bits_to_bytes(bits))]
+
+    def bits_numpy_bits(bits):
+        arr = bb.bitarray_to_numpy_array(bits)
+        return [arr, bb.numpy_array_to_bitarray(arr), bb.numpy_array_to_int(arr) if arr.size else None]
+
+    E["util.bytes_bits_bytes"] = bytes_bits_bytes
+    E["util.bits_numpy_bits"] = bits_numpy_bits
     # ---------------- the entry points modelled in Lean (Model/Purity.lean); results in the driver's line format
     from okdmr.dmrlib.motorola.mbxml import MBXMLToken
     from okdmr.dmrlib.motorola.text_messaging_service import FirstHeader
@@ -620,6 +762,22 @@ def impl():
         return f"x:{fx(a)} x:{fx(b)} hdr:{int(h.is_acknowledged)}{int(h.is_reserved)}{int(h.is_control_message)}:{h.pdu_type.value[1]}"
 
     E["m.tms"] = lambda data, stale: guarded(lambda: m_tms(data, stale), None)
+
+    def bits_of(buf):
+        if type(buf).__name__ in ("bitarray", "frozenbitarray"):
+            return buf.to01() or "-"
+        return "".join(f"{x:08b}" for x in bytes(buf)) or "-"
+
+    # CRC9.calculate_from_parts with `data` in whatever form the caller has it (Model/Purity: Call.crc9Parts); the mask by value
+    E["m.crc9parts"] = lambda data, sn, mv, c32: guarded(
+        lambda: f"n:{CRC9.calculate_from_parts(data=data, serial_number=sn, mask=CrcMasks(mv), crc32=c32)}", lambda: bits_of(data))
+
+    def m_gpsdate(ddmmyy):
+        rec = b"A120000" + ddmmyy.encode("ascii") + b"N5000.0000E01400.0000" + b"\0" * 6
+        d = GPSData.from_bytes(rec).greenwich_date
+        return "none" if d is None else f"n:{d.year:04d}{d.month:02d}{d.day:02d}"
+
+    E["m.gpsdate"] = lambda ddmmyy: guarded(lambda: m_gpsdate(ddmmyy), None)
     _IMPL = E
     return E
 
@@ -700,13 +858,69 @@ def execute(spec, full=False, keep=None):
                 note = "in-place repair returned the repaired argument buffer"
                 continue
             changed.append([i, squash(b, 300), squash(after, 300)])
+    _RESULTS.append(raw)
+    alias = []
+    if raw is not None:
+        tops = [raw] + (list(raw) if isinstance(raw, (list, tuple)) else [])
+        for i, a in enumerate(args):
+            if not is_buffer(a) or isinstance(a, (dict, set)):
+                continue
+            how = None
+            for o in tops:
+                if o is a:
+                    how = "is the argument object"
+                    break
+                if is_raw_buffer(o) and shares_memory(o, a):
+                    how = "shares memory with the argument"
+                    break
+            if how and not (name in INPLACE_OK or name == "m.ham.cac"):
+                alias.append([i, how])
     if keep is not None:
         # (a buffer the caller re-uses and gets back from an in-place repair changes by the caller's own hand)
-        holdable = raw is not None and not spec.get("m") and not any(a and a[0] == "h" for a in spec["a"])
+        holdable = raw is not None and not spec.get("m") and not any(a and a[0] in ("h", "k", "r") for a in spec["a"])
         keep.append((raw, hashlib.sha256(res.encode()).hexdigest(), res) if holdable else None)
     if raw is not None and spec.get("m"):
         scribble(raw)
-    return [res if full else squash(res), changed, note]
+    return [res if full else squash(res), changed, note, alias]
+
+
+def shares_memory(o, a):
+    """does what the caller writes into its own buffer `a` show in the returned object `o` (a view, a memoryview, a slice that
+    is not a copy)?  Tested by writing: the elements of `a` are flipped, `o` is looked at, the elements are flipped back."""
+    try:
+        if len(a) == 0 or len(o) == 0:
+            return False
+        tn = type(a).__name__
+        if tn == "ndarray" and type(o).__name__ == "ndarray":
+            import numpy
+
+            return bool(numpy.shares_memory(o, a))
+        before = canon(o)
+        if tn == "bitarray":
+            a.invert()
+            seen = canon(o) != before
+            a.invert()
+        elif tn == "ndarray":
+            if not a.flags.writeable:
+                return False
+            old = a.copy()
+            a[...] = (a == 0)
+            seen = canon(o) != before
+            a[...] = old
+        elif tn in ("bytearray", "memoryview") or (tn == "array" and a.typecode == "B"):
+            old = bytes(a)
+            try:
+                for i in range(len(a)):
+                    a[i] = old[i] ^ 0xFF
+                seen = canon(o) != before
+            finally:
+                for i in range(len(a)):
+                    a[i] = old[i]
+        else:
+            return False
+        return seen
+    except Exception:  # noqa
+        return False
 
 
 # ------------------------------------------------------------------------------------------------
@@ -825,7 +1039,8 @@ def serve():
     impl()  # imports the library; makes no library call
     import logging
 
-    logging.disable(logging.CRITICAL)
+    if k != AMBIENT_LOGGING:
+        logging.disable(logging.CRITICAL)
     for line in sys.stdin:
         line = line.strip()
         if not line:
@@ -839,9 +1054,22 @@ def serve():
             resp = {"r": [x if isinstance(x, list) else ["ERR worker " + x.get("child_error", "?"), [], ""] for x in res]}
         elif op == "seq":
 
-            def run_seq(calls=req["calls"], want_probe=req.get("probe", True), full=req.get("full", False), hold=req.get("hold", False)):
+            def run_seq(calls=req["calls"], want_probe=req.get("probe", True), full=req.get("full", False), hold=req.get("hold", False), reseed=req.get("reseed", False)):
                 keep = [] if hold else None
-                rs = [execute(s, full and i == len(calls) - 1, keep) for i, s in enumerate(calls)]
+                rs = []
+                for i, s in enumerate(calls):
+                    if reseed:
+                        # the application re-seeds the generators between its calls: no codec result may notice
+                        import random as _random
+
+                        _random.seed(7919 * i + 13)
+                        try:
+                            import numpy as _numpy
+
+                            _numpy.random.seed((7919 * i + 13) % 2**32)
+                        except Exception:  # noqa
+                            pass
+                    rs.append(execute(s, full and i == len(calls) - 1, keep))
                 out = {"r": rs}
                 if hold:
                     # every object the library returned is still held by the caller: none may have changed since
@@ -892,7 +1120,8 @@ def one(spec_json):
     sys.stderr = devnull
     import logging
 
-    logging.disable(logging.CRITICAL)
+    if k != AMBIENT_LOGGING:
+        logging.disable(logging.CRITICAL)
     r = execute(json.loads(spec_json))
     real_out.write(json.dumps(r) + "\n")
     real_out.flush()
